@@ -130,6 +130,37 @@ def run(M, rep, tier, only=None):
         rep.check(R2, "DataArray.%s@set" % attr, bad is None, "setting %s also writes %r" % (attr, ctx.fx.key(bad[1]) if bad else ""),
                   site=bad[1].site if bad else None, detail=describe_path(bad[0]) if bad else None)
 
+    # coefficients are removed only for None / an empty list, stored otherwise (an all-zero polynomial is a calibration)
+    from nixsa.dtable import TermEval, NOTHING, Unknown
+    sset = ctx.member("DataArray", "polynom_coefficients", "setters")
+    if sset is not None:
+        sp = ctx.paths(sset, "DataArray")
+        for val in (None, (), [], (0.0,), (0, 0), (1.0, 2.0), (0.0, 3.0)):
+            pname = sset.params[1]
+            te = TermEval(lambda t, val=val, pname=pname: val if t == ("param", pname) else (
+                True if t == ("attr", ("attr", ("self",), "_file"), "_auto_update_timestamps") or (t[0] == "rd" and t[1] == "child") else NOTHING))
+            hit = []
+            for p in sp:
+                try:
+                    if all(te.atom(a) == v for a, v in p.decisions):
+                        hit.append(p)
+                except Unknown as e:
+                    from nixsa.model import AnalysisError
+                    raise AnalysisError("C15.R2: the coefficient setter depends on an unmodelled condition (%s)" % e)
+                except (TypeError, AttributeError):
+                    pass
+            key = "polynom_coefficients = %r" % (val,)
+            if len(hit) != 1:
+                rep.bad(R2, key, "%d rows of the setter's decision table apply" % len(hit), site=sset.file)
+                continue
+            p = hit[0]
+            wrote = any(e.kind == "layer" and e.op == "H5Group.write_data" and ctx.fx.key(e) == "polynom_coefficients" for e in p.events)
+            deleted = any(e.kind == "layer" and e.op.split(".")[-1] in ("delete", "__delitem__") and ctx.fx.key(e) == "polynom_coefficients" for e in p.events)
+            want_store = val is not None and len(val) > 0
+            rep.check(R2, key, (wrote and not deleted) == want_store or (not want_store and not wrote), "assigning %r %s the coefficients; required: %s" % (
+                val, "stores" if wrote else ("removes" if deleted else "does nothing with"), "store them" if want_store else "remove them"),
+                site=sset.file + ":%d" % sset.node.lineno, detail=describe_path(p))
+
     bad3 = bad4 = bad5 = None
     cells = {}
     for p in paths:
